@@ -74,6 +74,9 @@ Section Law.
         match vld v with None => (Raise TraitError, []) | Some y => (Ok (insert l i y, None), []) end
     | PopX i => (bind (pop l i) (fun p => Ok (snd p, Some (fst p))), [])
     | ImulX n => (Ok (imul l n, None), [])
+    (* "can only assign an iterable" / "object is not iterable"; a zero step is reported first *)
+    | SetSliceN sl => if slice_step sl =? 0 then (Raise ValueError, [TypeError]) else (Raise TypeError, [])
+    | ExtendN => (Raise TypeError, [])
     end.
 
   Definition outcome_ok (out : res unit) (sr : spec_result) : bool :=
